@@ -723,6 +723,13 @@ static int sys_cmd (char *line)
         vh_out ("%s-nofile %s", tok[0], tok[1]);
       return 1;
     }
+  if (!strcmp (tok[0], "badload") && n == 2)
+    {
+      /* load something that does not compile (the master reports the error), then go on in the same process */
+      object_t *ob = safe_load (tok[1]);
+      vh_out ("badload %s %s", tok[1], ob ? "loaded" : "failed");
+      return 1;
+    }
   if (!strcmp (tok[0], "calls"))
     {
       /* calls <fn>[:arg[:arg]]...  functions applied on the top object after every reload */
